@@ -165,3 +165,28 @@ def roundtrip_lemma(ck, tier, formats=('hex', 'rgb', 'hsl', 'rgb_tuple'), force_
         ck.violation('format_color/round_trip', 'D', {'failures_shown': fails[:5], 'n_failures_at_least': len(fails)},
                      {'call': 'parse_color_to_rgb(format_color(colour, format))', **f}, {'witness_key': f"{f['format']}:{f['stage']}"})
     return exhaustive
+
+
+def run_ranges(ck, prog, quals, canaries=()):
+    """engine R (vf/ranges.py): range contracts of `quals` on the working tree + in-memory canaries (name, module, function, old, new)"""
+    from vf.ranges import verify_range
+    from contracts.ranges import contracts as range_contracts
+    rcs = range_contracts()
+    failed = False
+    for q in quals:
+        obls, err = verify_range(prog, rcs, q)
+        if q not in ck.functions: ck.functions.append(q)
+        if err: ck.undecide(f'{q}~ranges', err); continue
+        for o in obls:
+            ck.add_obligation('R', o.name, 'discharged' if o.ok else ('unknown' if o.ok is None else 'failed'), o.backend, o.secs, o.detail)
+            if o.ok is False: failed = True; ck.violation(o.name, 'R', {'function': q, 'back_end': o.backend, 'reason': o.detail})
+            elif o.ok is None: ck.undecide(o.name, o.detail)
+    for cname, mod, fn_, old, new in canaries:
+        mp_ = prog.mutate(mod, old, new)
+        if mp_ is None: ck.notes.append(f"canary '{cname}': pattern no longer matches - skipped"); continue
+        if failed or any(u['what'].endswith('~ranges') for u in ck.undecided): ck.notes.append(f"canary '{cname}': base failing or undecided - not judged"); continue
+        ob2, e2 = verify_range(mp_, rcs, f'{mod}:{fn_}')
+        killed = [o.name for o in ob2 if o.ok is False]
+        harmless = '(harmless)' in cname
+        ck.self_test(f'canary {cname}', (not killed and not e2) if harmless else bool(killed), f'killed by {killed[0]}' if killed else ('verifies' if not e2 else e2))
+    ck.assume('range contracts (engine R) are over the REALS with path-insensitive joins; pre-conditions are the ranges stated in contracts/ranges.py')
